@@ -306,3 +306,99 @@ Print Assumptions C12_cut_gen_spec.
 Print Assumptions C12_used_subs_gen_eq.
 Print Assumptions C12_function_gen_graph_ok.
 Print Assumptions C12_function_gen_run_complete.
+
+(* ------------------------------------------------------------------------------------------------------------
+   Extension (copy_main_cfg regenerated): Lemmas/Copy*.v about Gen/CopyGen.v, the translation of parse_functions.py
+   copy_main_cfg (re-parse of the source lines of the main blocks, block passes, transfer of ids, lines and callsub targets).
+   This discharges the assumption Gen/FunctionGen.v makes about the initial function state on structured contracts;
+   the refuted statement records the unstructured contracts (a subroutine jumping into a main block) where it fails. *)
+From Coq Require Import String List NArith ZArith Bool Arith.
+From Tealer Require Import CopyNext CopyGenLemmas.
+
+(* re-parsing the instructions of any successor-closed set of blocks yields exactly those blocks *)
+Theorem C12_sub_program_blocks :
+      forall (p : Cfg.prog) (bs : list Cfg.block) 
+         (M : list nat) (pc : Cfg.prog),
+       Cfg.build_blocks p = Some bs ->
+       CopyDefs.closed bs M ->
+       CopyDefs.nonempty_sel bs M ->
+       CopyDefs.copy_of p (CopyDefs.sel_pos bs M) pc ->
+       Cfg.build_blocks pc = Some (CopyDefs.sel_blocks bs M).
+Proof. exact @sub_program_blocks. Qed.
+
+(* the regenerated copy_main_cfg returns the main blocks of the contract with predecessors restricted to main *)
+Theorem C12_copy_main_cfg_gen_main :
+      forall (p : Cfg.prog) (t : Cfg.teal) (attrs : CopyGen.ins_attrs),
+       Cfg.parse_teal p = Parse.Ok t ->
+       lines_increasing p ->
+       attrs_ok p attrs ->
+       CopyGen.copy_main_cfg_state t attrs =
+       Some (FunctionGenLemmas.function_blocks0 t, CopyInstances.heap0m t).
+Proof. exact @copy_main_cfg_state_main. Qed.
+
+(* which is the initial function state of the model when no subroutine block precedes a main block *)
+Theorem C12_copy_main_cfg_gen_eq :
+      forall (p : Cfg.prog) (t : Cfg.teal) (attrs : CopyGen.ins_attrs),
+       Cfg.parse_teal p = Parse.Ok t ->
+       lines_increasing p ->
+       attrs_ok p attrs ->
+       main_prev_closed t ->
+       CopyGen.copy_main_cfg_state t attrs =
+       Some (FunctionGenLemmas.function_blocks0 t, FunctionGenLemmas.heap0 t).
+Proof. exact @copy_main_cfg_state_eq. Qed.
+
+(* in particular on structured contracts *)
+Theorem C12_main_prev_closed_struct_ok :
+      forall (p : Cfg.prog) (t : Cfg.teal),
+       Cfg.parse_teal p = Parse.Ok t -> GraphWf.struct_ok t -> main_prev_closed t.
+Proof. exact @main_prev_closed_struct_ok. Qed.
+
+(* construct_function composed with the regenerated copy *)
+Theorem C12_construct_function_from_copy_gen_eq :
+      forall (p : Cfg.prog) (t : Cfg.teal) (attrs : CopyGen.ins_attrs) (path : list nat) 
+         (fmn : string) (f : Analysis.func) (errs : list (nat * (nat * nat))),
+       Cfg.parse_teal p = Parse.Ok t ->
+       lines_increasing p ->
+       attrs_ok p attrs ->
+       main_prev_closed t ->
+       Group.construct_function t path = Parse.Ok (f, errs) ->
+       exists h : FunctionGen.fheap,
+         CopyGen.construct_function_from_copy_gen (FunctionGenLemmas.dfs_budget t path)
+           (FunctionGenLemmas.subs_budget t) t attrs fmn path = Some (Some (Parse.Ok (f, h))) /\
+         FunctionGen.fh_prog h = Analysis.fn_prog f /\
+         FunctionGen.fh_next_id h = Group.fs_next_id (Group.cut_path (GroupLemmas.fn_state0 t) path) /\
+         FunctionGen.fh_idx h = map FunctionGenLemmas.err_idx errs /\
+         FunctionGen.fh_line h = map (FunctionGenLemmas.err_line t) (FunctionGen.enumerate errs).
+Proof. exact @construct_function_from_copy_gen_eq. Qed.
+
+(* hypotheses discharged for a parsed source text *)
+Theorem C12_copy_main_cfg_gen_source :
+      forall (src : string) (p : Cfg.prog) (attrs : CopyGen.ins_attrs) (t : Cfg.teal),
+       CopyGen.first_pass_lines (Cfg.splitlines src) 1 = Some p ->
+       CopyInstances.attrs_of_lines (Cfg.splitlines src) nil = Some attrs ->
+       Cfg.parse_teal p = Parse.Ok t ->
+       CopyGen.copy_main_cfg_state t attrs =
+       Some (FunctionGenLemmas.function_blocks0 t, CopyInstances.heap0m t) /\
+       (main_prev_closed t ->
+        CopyGen.copy_main_cfg_state t attrs =
+        Some (FunctionGenLemmas.function_blocks0 t, FunctionGenLemmas.heap0 t)).
+Proof. exact @copy_main_cfg_source. Qed.
+
+(* a contract whose subroutine jumps into a main block: the copy drops the predecessor the model keeps *)
+Theorem C12_copy_main_cfg_gen_refuted :
+      exists (ls : list string) (p : Cfg.prog) (attrs : CopyGen.ins_attrs) (t : Cfg.teal),
+         CopyGen.first_pass_lines ls 1 = Some p /\
+         CopyInstances.attrs_of_lines ls nil = Some attrs /\
+         Cfg.parse_teal p = Parse.Ok t /\
+         CopyGen.copy_main_cfg_state t attrs <>
+         Some (FunctionGenLemmas.function_blocks0 t, FunctionGenLemmas.heap0 t) /\ 
+         ~ main_prev_closed t.
+Proof. exact @copy_main_cfg_state_refuted. Qed.
+
+Print Assumptions C12_sub_program_blocks.
+Print Assumptions C12_copy_main_cfg_gen_main.
+Print Assumptions C12_copy_main_cfg_gen_eq.
+Print Assumptions C12_main_prev_closed_struct_ok.
+Print Assumptions C12_construct_function_from_copy_gen_eq.
+Print Assumptions C12_copy_main_cfg_gen_source.
+Print Assumptions C12_copy_main_cfg_gen_refuted.
